@@ -59,11 +59,31 @@ Inductive item : Type :=
           (res : option (spectrum string))
     (* Spectrum_pickler's argument tuple and Spectrum_unpickler's result as the implementation produced them *)
 | IWriteV (comments : list string) (foldmaskinfo : bool) (dv : view string) (mv : view bool)
-          (s : spectrum string) (text : string).
+          (s : spectrum string) (text : string)
     (* a spectrum held in memory as the two strided views [dv] (data tokens) and [mv] (mask): both views lie inside
        their blocks, their logical content computed by the model from block, offset and strides ([v_ravel]) is the
        spectrum [s] numpy reported (ravel), and the model's to_file of that logical content is [text]
        (the file the implementation wrote for this very object) *)
+| IWriteF (comments : list string) (foldmaskinfo : bool) (flag : pyflag) (kind : seqkind)
+          (s : spectrum string) (text : string)
+    (* a Spectrum OBJECT whose .folded attribute is the Python object [flag] (type and value as the implementation
+       reported them) and whose .pop_ids is held in a container of kind [kind]; [s] is its canonical form as numpy
+       reported it (bool(folded), list(pop_ids)): the model's canonical form of the object is [s] and the model's
+       to_file of the object is [text] (the file the implementation wrote for this very object) *)
+| IPickleF (flag : pyflag) (kind : seqkind) (s : spectrum string)
+           (aflag : pyflag) (akind : seqkind) (uflag : pyflag) (ukind : seqkind) (ures : option (spectrum string)).
+    (* the object as above; [aflag], [akind]: the flag object and the label container found in the reduce tuple
+       Spectrum_pickler built; [uflag], [ukind], [ures]: what Spectrum_unpickler made of that tuple *)
+
+Fixpoint pyflag_eqb (a b : pyflag) : bool :=
+  match a, b with
+  | PyBool x, PyBool y | NpBool x, NpBool y | PyFloat x, PyFloat y => Bool.eqb x y
+  | PyInt x, PyInt y | NpInt x, NpInt y => Z.eqb x y
+  | Arr0 x, Arr0 y => pyflag_eqb x y
+  | _, _ => false
+  end.
+Definition seqkind_eqb (a b : seqkind) : bool :=
+  match a, b with SeqList, SeqList | SeqTuple, SeqTuple | SeqNdarray, SeqNdarray => true | _, _ => false end.
 
 (** memory cells that belong to no entry of the view (gaps of a stepped slice) *)
 Definition FILL : string := "<no-entry>".
@@ -98,6 +118,20 @@ Definition item_ok (it : item) : bool :=
       let s' := spectrum_of_views FILL dv mv (sp_folded s) (sp_labels s) (sp_extrap s) in
       v_inbounds dv && v_inbounds mv && list_eqb Nat.eqb (v_shape dv) (v_shape mv)
       && spec_eqb s' s && String.eqb (to_file idfmt 0 cs fmi s') text
+  | IWriteF cs fmi flag kind s text =>
+      let o := mkObj s flag kind in
+      spec_eqb (canon o) s && String.eqb (to_file_obj idfmt 0 cs fmi o) text
+  | IPickleF flag kind s aflag akind uflag ukind ures =>
+      let o := mkObj s flag kind in
+      let '(_, _, mflag, (mkind, _), _) := spectrum_pickler_obj o in
+      spec_eqb (canon o) s
+      && pyflag_eqb mflag aflag && seqkind_eqb mkind akind
+      && match spectrum_unpickler_obj (spectrum_pickler_obj o), ures with
+         | Some u, Some r => spec_eqb (canon u) r && pyflag_eqb (so_folded u) uflag && seqkind_eqb (so_labels_kind u) ukind
+                             && spec_eqb (so_spec u) s
+         | None, None => true
+         | _, _ => false
+         end
   end.
 
 (** a case = tagged items (tag k < 60); result = (all ok, sum of 2^k over the failing items) *)
